@@ -905,7 +905,7 @@ fn fuzz_campaign(rep: &mut Report) {
     let fuzz_dir = root.join("fuzz");
     let scale = rep.cfg.scale;
     let cap_s: u64 = std::env::var("VERIF_FUZZ_CAP_S").ok().and_then(|s| s.parse().ok()).unwrap_or(((600.0 * scale).ceil() as u64).clamp(20, 600));
-    let runs: u64 = std::env::var("VERIF_FUZZ_RUNS").ok().and_then(|s| s.parse().ok()).unwrap_or(((20_000_000.0 * scale) as u64).max(100_000));
+    let runs: u64 = std::env::var("VERIF_FUZZ_RUNS").ok().and_then(|s| s.parse().ok()).unwrap_or(((8_000_000.0 * scale) as u64).max(100_000));
     let skip = |rep: &mut Report, why: String| {
         eprintln!("C12 fuzz: {why}");
         rep.inconclusive.push(format!("libFuzzer campaign skipped: {why}"));
@@ -955,72 +955,89 @@ fn fuzz_campaign(rep: &mut Report) {
                 continue;
             }
         };
-        let corpus = tmp.path().join("corpus");
         let artifacts = tmp.path().join("artifacts");
-        let _ = std::fs::create_dir_all(&corpus);
         let _ = std::fs::create_dir_all(&artifacts);
-        // fresh corpus seeded from the goldens (frozen files) — message seeds get the one-byte
-        // selector the target expects (0 = request, 1 = response)
+        // P independent libFuzzer processes (libFuzzer itself is single-threaded), each with its own
+        // fresh corpus seeded from the goldens (frozen files) and its own derived seed. Message seeds
+        // get the one-byte selector the target expects (0 = request, 1 = response).
+        let procs = rep.cfg.workers.clamp(1, 8) as u64;
         let mut seeds = 0;
-        for it in pool().iter().filter(|p| !p.large && targets.contains(&p.target)) {
-            let frozen = std::fs::read_to_string(goldens_dir(&root).join(format!("{}.hex", it.name))).ok().and_then(|s| hex::decode(s.trim()).ok()).unwrap_or_else(|| it.bytes.clone());
-            let mut b = match it.target {
-                Target::Record => vec![],
-                Target::Request => vec![0u8],
-                Target::Response => vec![1u8],
-            };
-            b.extend_from_slice(&frozen);
-            if std::fs::write(corpus.join(&it.name), b).is_ok() {
-                seeds += 1;
+        let mut children = vec![];
+        for p in 0..procs {
+            let corpus = tmp.path().join(format!("corpus-{p}"));
+            let _ = std::fs::create_dir_all(&corpus);
+            seeds = 0;
+            for it in pool().iter().filter(|p| !p.large && targets.contains(&p.target)) {
+                let frozen = std::fs::read_to_string(goldens_dir(&root).join(format!("{}.hex", it.name))).ok().and_then(|s| hex::decode(s.trim()).ok()).unwrap_or_else(|| it.bytes.clone());
+                let mut b = match it.target {
+                    Target::Record => vec![],
+                    Target::Request => vec![0u8],
+                    Target::Response => vec![1u8],
+                };
+                b.extend_from_slice(&frozen);
+                if std::fs::write(corpus.join(&it.name), b).is_ok() {
+                    seeds += 1;
+                }
+            }
+            let fseed = ((rep.cfg.seed.wrapping_mul(64).wrapping_add(p)) % (u32::MAX as u64 - 1)) + 1;
+            let child = std::process::Command::new(&bin)
+                .arg(&corpus)
+                .arg(format!("-runs={}", (runs / procs).max(1)))
+                .arg(format!("-seed={fseed}"))
+                .arg("-len_control=0")
+                .arg("-max_len=4096")
+                .arg(format!("-max_total_time={cap_s}"))
+                .arg("-rss_limit_mb=4096")
+                .arg("-timeout=30")
+                .arg("-print_final_stats=1")
+                .arg(format!("-artifact_prefix={}/p{p}-", artifacts.display()))
+                .stdout(std::process::Stdio::null())
+                .stderr(std::process::Stdio::piped())
+                .spawn();
+            match child {
+                Ok(c) => children.push(c),
+                Err(e) => skip(rep, format!("cannot run {}: {e}", bin.display())),
             }
         }
-        let out = std::process::Command::new(&bin)
-            .arg(&corpus)
-            .arg(format!("-runs={runs}"))
-            .arg(format!("-seed={}", (rep.cfg.seed % (u32::MAX as u64)) + 1))
-            .arg("-len_control=0")
-            .arg("-max_len=4096")
-            .arg(format!("-max_total_time={cap_s}"))
-            .arg("-rss_limit_mb=4096")
-            .arg("-timeout=30")
-            .arg("-print_final_stats=1")
-            .arg(format!("-artifact_prefix={}/", artifacts.display()))
-            .output();
-        let out = match out {
-            Ok(o) => o,
-            Err(e) => {
-                skip(rep, format!("cannot run {}: {e}", bin.display()));
-                continue;
+        let mut execs = 0u64;
+        let mut new_units = 0u64;
+        let mut any_failed_without_artifact = None;
+        for c in children {
+            let Ok(out) = c.wait_with_output() else { continue };
+            let log = String::from_utf8_lossy(&out.stderr).to_string();
+            let stat = |k: &str| -> Option<u64> { log.lines().rev().find_map(|l| l.strip_prefix(k).and_then(|r| r.trim().parse().ok())) };
+            execs += stat("stat::number_of_executed_units:").unwrap_or(0);
+            new_units += stat("stat::new_units_added:").unwrap_or(0);
+            if !out.status.success() {
+                let tail: String = log.lines().rev().take(8).collect::<Vec<_>>().into_iter().rev().collect::<Vec<_>>().join(" | ");
+                any_failed_without_artifact = Some((out.status.code(), tail));
             }
-        };
-        let log = String::from_utf8_lossy(&out.stderr).to_string();
-        let stat = |k: &str| -> Option<u64> { log.lines().rev().find_map(|l| l.strip_prefix(k).and_then(|r| r.trim().parse().ok())) };
-        let execs = stat("stat::number_of_executed_units:").unwrap_or(0);
-        let new_units = stat("stat::new_units_added:").unwrap_or(0);
+        }
         let mut st = SectionStats {
             name: format!("fuzz_{target}"),
             evaluations: execs,
-            rule: format!("libFuzzer target {target} (same oracle in-target), fresh corpus of {seeds} golden seeds, -runs={runs} -seed={} -len_control=0 -max_len=4096, wall cap {cap_s}s (expiry = stop)", (rep.cfg.seed % (u32::MAX as u64)) + 1),
+            rule: format!("libFuzzer target {target} (same oracle in-target), {procs} processes each with a fresh corpus of {seeds} golden seeds, -runs={} -seed=f(VERIF_SEED, process) -len_control=0 -max_len=4096, wall cap {cap_s}s (expiry = stop); distinct = corpus units added", (runs / procs).max(1)),
             wall_s: t0.elapsed().as_secs_f64(),
             ..Default::default()
         };
         st.extra.insert("seeds".into(), json!(seeds));
+        st.extra.insert("processes".into(), json!(procs));
         st.extra.insert("new_units_added".into(), json!(new_units));
         st.extra.insert("stopped_by_wall_cap".into(), json!(t0.elapsed() >= Duration::from_secs(cap_s)));
         for i in 0..new_units.min(1_000_000) {
             st.nontrivial_hashes.insert(vh_core::stable_hash(&(target, i)));
         }
         rep.add_manual(st);
-        // crash artifacts: re-judge in-process to get the precise signature
         let mut arts: Vec<PathBuf> = std::fs::read_dir(&artifacts).map(|rd| rd.flatten().map(|e| e.path()).collect()).unwrap_or_default();
         arts.sort();
-        if !out.status.success() && arts.is_empty() {
-            let tail: String = log.lines().rev().take(8).collect::<Vec<_>>().into_iter().rev().collect::<Vec<_>>().join(" | ");
-            skip(rep, format!("{target} exited with {:?} without an artifact: {tail}", out.status.code()));
+        if let (Some((code, tail)), true) = (any_failed_without_artifact, arts.is_empty()) {
+            skip(rep, format!("{target} exited with {code:?} without an artifact: {tail}"));
         }
+        // crash artifacts: re-judge in-process to get the precise signature
         for a in arts {
             let Ok(data) = std::fs::read(&a) else { continue };
             let kind = a.file_name().map(|s| s.to_string_lossy().to_string()).unwrap_or_default();
+            let kind = kind.split_once('-').map(|(_, k)| k.to_string()).unwrap_or(kind);
             if kind.starts_with("oom-") || kind.starts_with("timeout-") || kind.starts_with("slow-unit-") {
                 // resource verdicts depend on the machine: keep the input, report as inconclusive
                 let keep = root.join("replays").join(format!("C12-fuzz-{target}-{kind}"));
